@@ -69,6 +69,7 @@ from .scaling import quantise_scale
 from .shape4d import Shape4D
 from .softmax import SoftMax
 from .tensor import check_quantized_tens_scaling_equal
+from .tflite_model_semantic import TFLiteSemantic
 from .tensor import create_const_tensor
 from .tensor import create_equivalence_id
 from .tensor import QuantizationParameters
@@ -3029,13 +3030,22 @@ def merge_dequant_lut_quant(op, arch, nng=None):
     if pre_op.type != Op.Dequantize:
         return op
 
+    # This rewrite also sees operators that stay on the CPU. Decide on a copy whether the merged table operator passes the
+    # checks that every operator has to pass, and leave the three operators untouched if it does not
+    merged_op = lut_op.clone("_merged")
+    merged_op.inputs[0] = pre_op.inputs[0]
+    merged_op.outputs = [post_op.outputs[0]]
+    merged_op.set_ifm_ofm_shapes()
+    if not (
+        TFLiteSemantic().is_operator_semantic_valid(merged_op)
+        and arch.tflite_supported_operators.is_operator_supported(merged_op)
+    ):
+        return op
+
     lut_op.set_input_tensor(pre_op.inputs[0], 0)
     lut_op.set_output_tensor(post_op.outputs[0])
-
     lut_op.set_ifm_ofm_shapes()
-
-    ifm, ofm = lut_op.get_ifm_ofm()
-    lut_op.run_on_npu = arch.tflite_supported_operators.is_operator_supported(lut_op)
+    lut_op.run_on_npu = True
 
     return lut_op
 
